@@ -71,7 +71,8 @@ const (
 	OpReload      = "reload"
 	OpQuotaPre    = "quotaPreempt"
 	OpCleanup     = "cleanup"
-	OpEcho        = "echo" // re-send a bound allocation unchanged (idempotence)
+	OpEcho        = "echo"     // re-send a bound allocation unchanged (idempotence)
+	OpPredDeny    = "predDeny" // from now on the predicate plugin of the shim denies (Key, Node) (explicit in the op, so replays agree)
 )
 
 func (o *Op) String() string {
